@@ -313,6 +313,46 @@ def other_sum_obs():
     return obs
 
 
+def nested_same_name_obs(en):
+    """a switch inside an arm that re-uses the argument's name: after the inner switch the name is the OUTER arm's
+    payload again (the argument is bound per arm, in the arm's own scope)"""
+    discs = en.discriminants()
+    tag_off = en.tag_offset()
+    oty = Opt(S('i64'))
+    obs = []
+    for inner_other, code in (('nil => { mark(101); }', 101), ('_ => { mark(102); }', 102)):
+        name = 'sw_nest_%d' % code
+        inner = 'switch v in q^ { i64 => { mark(100); mark(u64.(v)); }, %s }' % inner_other
+        arms = []
+        for k, (vn, pay, _) in enumerate(en.variants):
+            if pay is None or pay.kind == 'struct':
+                continue
+            arms.append('%s.%s => { %s mark(%d);%s }' % (en.name, vn, inner, k + 1, payload_stmts(pay, 'v', True)))
+        src = '%s :: (p: ^%s, q: ^?i64) { switch v in p^ { %s, _ => { mark(99); } } }' % (name, en.name, ', '.join(arms))
+
+        def post(ctx, xs, code=code):
+            b, q = ctx.bufs
+            tag = ctx.init_bytes(b, tag_off, 1); qtag = ctx.init_bytes(q, oty.tag_offset(), 1)
+            got = ctx.marks()
+            if ctx.status == 'abort':
+                # only an undeclared tag of the INNER optional can abort, and only without a default arm
+                return [('abort only for an undeclared inner tag without a default arm', z3.And(z3.UGT(qtag, 1), z3.BoolVal(code == 101)))]
+            goals = []
+            for k, (vn, pay, _) in enumerate(en.variants):
+                if pay is None or pay.kind == 'struct':
+                    goals.append(('variant %s runs the default arm' % vn, z3.Implies(tag == discs[k], marks_eq(got, [99]))))
+                    continue
+                for qt, inner_marks in ((1, [100, ctx.init_bytes(q, 0, 8)]), (0, [code])):
+                    exp = inner_marks + [k + 1] + payload_marks(ctx, b, pay)
+                    goals.append(('after the inner switch the argument of arm %s is its own payload again' % vn,
+                                  z3.Implies(z3.And(tag == discs[k], qtag == qt), marks_eq(got, exp))))
+            return goals
+        ob = Ob(name, src, [('buf', en, False), ('buf', oty, False)], None, post, {'kind': 'switch-nested-same-argument', 'sum': 'enum'}, event_funcs={'mark'})
+        ob.handles_abort = True
+        obs.append(ob)
+    return obs
+
+
 def distinct_cases(chk, prover):
     """switches over a distinct wrapper of an enum, in both spellings, each compiled on its own
     (the pinned tree panics on them: known finding)"""
@@ -360,6 +400,7 @@ def run(chk, tier, seed):
         o, _ = enum_switch_obs(en, rnd, i)
         obs += o
     obs += other_sum_obs()
+    obs += nested_same_name_obs(enums[0])
     ro, rdecls = roundtrip_obs(rnd, 6 if tier == 'quick' else 240)
     obs += ro; decls += rdecls
     mod, obs, src, refs = clifcheck.compile_obligations(chk, 'switches', clifcheck.PRELUDE + '\n'.join(decls) + '\n', obs)
